@@ -210,7 +210,7 @@ def find_item(src, kind, name):
     if len(hits) > 1:
         raise ExtractError("%s ambiguous: %s" % (kind, name))
     m = hits[0]
-    if kind == 'const':
+    if kind in ('const', 'static'):
         e = src.find(';', m.end())
         return m, None, e
     o = find_body_open(src, m.end())
@@ -360,7 +360,7 @@ def split_fields(body):
     return [p.strip() for p in parts if p.strip()]
 
 
-def extract_struct(repo, rel, name, keep=None, drop=None, info=None, noderive=None, defaultspec=False):
+def extract_struct(repo, rel, name, keep=None, drop=None, info=None, noderive=None, defaultspec=False, retype=None, clonespec=False):
     raw, src = repo.src(rel)
     m, o, e = find_item(src, 'struct', name)
     if o is None:
@@ -372,6 +372,7 @@ def extract_struct(repo, rel, name, keep=None, drop=None, info=None, noderive=No
         kept = []
         dropped = []
         names = []
+        retyped = []
         for f in fields:
             f = fix_vis(f)
             fm = re.match(r'(?:pub\s+)?([A-Za-z_][A-Za-z0-9_]*)\s*:', f)
@@ -387,6 +388,9 @@ def extract_struct(repo, rel, name, keep=None, drop=None, info=None, noderive=No
                 continue
             if not f.startswith('pub'):
                 f = 'pub ' + f
+            if retype and fname in retype:
+                f = 'pub %s: %s' % (fname, retype[fname])     # R6: field type replaced by a prelude shim type
+                retyped.append(fname)
             kept.append('    ' + re.sub(r'\s+', ' ', f) + ',')
         for k in (keep or []):
             if k not in names:
@@ -422,6 +426,14 @@ def extract_struct(repo, rel, name, keep=None, drop=None, info=None, noderive=No
         text += ('// derive(Default) is field-wise Default (generated mechanically from the field types)\n'
                  'pub assume_specification [<%s as Default>::default] () -> (r: %s)\n    ensures %s;\n'
                  % (name, name, ',\n        '.join(clauses) if clauses else 'true'))
+    if clonespec:
+        if 'Clone' not in ders:
+            raise ExtractError("clonespec requested but struct %s does not derive Clone" % name)
+        ders = [d for d in ders if d != 'Clone']
+        text += ('// derive(Clone) returns a value equal to the original: the derive is replaced by an external impl with that\n'
+                 '// assumed specification (generated mechanically; Verus gives derived non-Copy Clone impls no spec)\n'
+                 '#[verifier::external]\nimpl Clone for %s { fn clone(&self) -> Self { unimplemented!() } }\n'
+                 'pub assume_specification [<%s as Clone>::clone] (x: &%s) -> (r: %s)\n    ensures r == *x;\n' % (name, name, name, name))
     if noderive:
         ders = [d for d in ders if d not in noderive]
     if ders:
@@ -429,7 +441,7 @@ def extract_struct(repo, rel, name, keep=None, drop=None, info=None, noderive=No
     if info is not None:
         info.append({'kind': 'struct', 'name': name, 'file': rel, 'lines': [line_of(src, m.start()), line_of(src, e)],
                      'sha256': hashlib.sha256(src[m.start():e + 1].encode()).hexdigest(),
-                     'dropped_fields': dropped})
+                     'dropped_fields': dropped, 'retyped_fields': retyped if o is not None else []})
     return text
 
 
@@ -468,10 +480,17 @@ def extract_type(repo, rel, name, info=None):
     return text
 
 
-def extract_const(repo, rel, name, info=None):
+def extract_const(repo, rel, name, info=None, kw='const'):
     raw, src = repo.src(rel)
-    m, o, e = find_item(src, 'const', name)
-    text = 'pub const ' + src[m.end() - len(name):e + 1] + '\n'
+    m, o, e = find_item(src, kw, name)
+    # R9: an immutable `static` of scalar type is emitted as `const`; a constant integer initialiser made only of
+    # literals and + - * << >> ( ) is evaluated here (Verus cannot fold `1 << 28`) and the literal is emitted
+    decl = src[m.end() - len(name):e + 1]
+    dm = re.match(r'^(\S+\s*:\s*[a-z0-9]+\s*=\s*)([0-9_ ()+\-*<>]+);$', decl, re.S)
+    if dm and re.search(r'<<|>>', dm.group(2)):
+        val = eval(dm.group(2).replace('_', ''), {'__builtins__': {}}, {})
+        decl = '%s%d; // = %s' % (dm.group(1), val, dm.group(2).strip())
+    text = 'pub const ' + decl + '\n'
     if info is not None:
         info.append({'kind': 'const', 'name': name, 'file': rel, 'lines': [line_of(src, m.start()), line_of(src, e)],
                      'sha256': hashlib.sha256(src[m.start():e + 1].encode()).hexdigest()})
@@ -697,8 +716,9 @@ def process_template(template_path, repo_root, include_dirs=(), restrict=()):
             kv, fl = parse_kv(tk[3:])
             keep = kv['keep'].split(',') if 'keep' in kv else None
             drop = kv['drop'].split(',') if 'drop' in kv else None
+            retype = dict(x.split(':', 1) for x in kv['retype'].split(',')) if 'retype' in kv else None
             emit(extract_struct(repo, tk[1], tk[2], keep, drop, items, kv['noderive'].split(',') if 'noderive' in kv else None,
-                                defaultspec=('defaultspec' in fl)))
+                                defaultspec=('defaultspec' in fl), retype=retype, clonespec=('clonespec' in fl)))
             i += 1
             continue
         if s.startswith('//@enum '):
@@ -718,9 +738,9 @@ def process_template(template_path, repo_root, include_dirs=(), restrict=()):
             emit(extract_type(repo, tk[1], tk[2], items))
             i += 1
             continue
-        if s.startswith('//@const '):
+        if s.startswith('//@const ') or s.startswith('//@static '):
             tk = s.split()
-            emit(extract_const(repo, tk[1], tk[2], items))
+            emit(extract_const(repo, tk[1], tk[2], items, kw=tk[0][3:]))
             i += 1
             continue
         if s.startswith('//@fn '):
